@@ -145,7 +145,7 @@ def gen_c16(rng, tier):
             for inc in (1, 2, 3):
                 cases.append(('Seq', [f, t, inc], []))
     # random larger cases
-    nrand = 300 if tier == 'quick' else 3000
+    nrand = 300 if tier == 'quick' else 10000
     allnames = ONE_IN + PARAM_IN + PARAM1_IN + TWO_IN + ['Operate3', 'Echo']
     for _ in range(nrand):
         name = rng.choice(allnames)
@@ -424,7 +424,7 @@ def shrink_ops(prefix, ops, fails):
 def check_c17(res, tier, replay):
     rng = random.Random(vlib.seed())
     ob = vlib.apply_obligations(res, 'C17')
-    nhist = 40 if tier == 'quick' else 400
+    nhist = 40 if tier == 'quick' else 1500
     hlen = 60 if tier == 'quick' else 400
     lines, meta = [], {}
     if replay:
